@@ -13,7 +13,7 @@ SHUT_RD, SHUT_WR, SHUT_RDWR = 0, 1, 2
 class Pipe(object):
     """One direction of a connection."""
     __slots__ = ('segs', 'rcvbuf', 'fin_queued', 'fin', 'rst', 'auto', 'latency', 'name',
-                 'total_written', 'total_delivered', 'hold', 'boundaries')
+                 'total_written', 'total_delivered', 'hold', 'boundaries', 'rst_after_segs')
 
     def __init__(self, name):
         self.name = name
@@ -28,6 +28,7 @@ class Pipe(object):
         self.total_delivered = 0
         self.hold = False        # True: network actor never delivers (peer->provider under driver control)
         self.boundaries = []     # absolute stream offsets where a write ended (PDU-ish boundaries)
+        self.rst_after_segs = False
 
     def inflight(self):
         return sum(len(s[1]) for s in self.segs)
@@ -111,7 +112,11 @@ class SimSocket(object):
             # first write after the peer closed: accepted by the kernel, answered by RST.
             # Linux semantics: data that was received before the RST stays readable, the
             # reset is reported once the receive queue is empty (see recv).
-            self.rx.rst = True
+            if self.rx.segs:
+                # what the peer sent before closing is still in flight and arrives first
+                self.rx.rst_after_segs = True
+            else:
+                self.rx.rst = True
             sim.bump('net.write_after_peer_close')
             return None
         if self.on_send is not None:
@@ -301,6 +306,10 @@ class Delivery(Actor):
                     p.rcvbuf += s2
                     p.total_delivered += len(s2)
                     sim.bump('net.coalesced')
+        if not p.segs and p.rst_after_segs:
+            p.rst = True
+            p.rst_after_segs = False
+            return
         if not p.segs and p.fin_queued and sim.chance('network', 0.5, 'finwith'):
             p.fin = True
             p.fin_queued = False
@@ -421,6 +430,7 @@ class SimQueue(object):
         self.items = []
         self._quantum = 0.001
         self.nput = 0
+        self.maxsize = maxsize or 0
 
     def qsize(self):
         return len(self.items)
@@ -429,10 +439,18 @@ class SimQueue(object):
         return not self.items
 
     def full(self):
-        return False
+        return 0 < self.maxsize <= len(self.items)
 
     def put(self, item, block=True, timeout=None):
         self.sim.yield_('q.put')
+        if self.full():
+            # bounded queue: the producer blocks until a consumer makes room
+            if not block:
+                raise _realqueue.Full()
+            self.sim.bump('probe.queue_full_block')
+            self.sim.wait(lambda: not self.full(), timeout, 'q.put-full')
+            if self.full():
+                raise _realqueue.Full()
         self.items.append(item)
         self.nput += 1
 
